@@ -224,9 +224,37 @@ def thorough_extras(pid, out=sys.stdout):
     """Thorough tier: additionally run the checker self-test (positive controls + seeded changes) for this property on
     scratch copies of /repo.  Its outcome is reported as `checker_health`; it never changes the property verdict."""
     import subprocess
+    rc = 0
+    mod = importlib.import_module(f"rules.{pid.lower()}")
+    wit = getattr(mod, "WITNESS", None)
+    if wit:
+        w = subprocess.run([sys.executable, os.path.join(VERIF, "engine", "witness", "run.py")], stdout=subprocess.PIPE, stderr=subprocess.STDOUT, text=True)
+        mine = [l for l in w.stdout.splitlines() if l.startswith("test ") and any(x in l for x in wit)]
+        failed = [l for l in mine if not l.rstrip().endswith("ok")]
+        okw = bool(mine) and not failed and w.returncode == 0
+        out.write(f"[{pid}] type-level witnesses ({', '.join(wit)}): {len(mine)} doctests, {'all as expected' if okw else 'FAILED'}\n")
+        p = os.path.join(VERIF, "evidence", f"{pid}.json")
+        try:
+            with open(p) as f:
+                ev = json.load(f)
+            ev["coverage"]["witnesses"] = {"cmd": "cargo +nightly test --doc --offline (engine/witness, path-dependency on /repo)", "doctests": mine, "ok": okw}
+            if not okw:
+                ev["violations"] = ev.get("violations", 0) + 1
+            with open(p, "w") as f:
+                json.dump(ev, f, indent=1)
+        except Exception:
+            pass
+        if not okw:
+            vdir = os.path.join(VERIF, "evidence", f"{pid}.violations")
+            os.makedirs(vdir, exist_ok=True)
+            rp = os.path.join(vdir, "witness.json")
+            with open(rp, "w") as f:
+                json.dump({"kind": "witness", "output": w.stdout[-4000:]}, f, indent=1)
+            out.write(f"VIOLATION property={pid} replay={rp} rule=witness key={pid}/witness :: a type-level witness no longer behaves as specified: {failed[:2] or w.stdout[-300:]}\n")
+            rc = 1
     st = os.path.join(VERIF, "bin", "selftest")
     if not os.path.exists(st):
-        return 0
+        return rc
     r = subprocess.run([st, "--property", pid, "--quiet"], stdout=subprocess.PIPE, stderr=subprocess.STDOUT, text=True)
     tail = r.stdout.strip().splitlines()[-6:]
     out.write(f"[{pid}] checker_health (self-test on scratch copies): {'ok' if r.returncode == 0 else 'ATTENTION'}\n")
@@ -241,4 +269,4 @@ def thorough_extras(pid, out=sys.stdout):
             json.dump(ev, f, indent=1)
     except Exception:
         pass
-    return 0
+    return rc
